@@ -943,7 +943,10 @@ func (t *Trans) execMakeSlice(fr *Frame, x *ssa.MakeSlice) {
 		}
 		return
 	}
-	t.safe(fr, "makeslice-len", fmt.Sprintf("(and (bvsle %s %s) (bvsle %s %s) (bvslt %s LENMAX))", zero64, ln, ln, cp, cp), x.Pos())
+	// make panics on a negative length or len > cap; a request beyond LENMAX (2^40) elements is an allocation
+	// failure (fatal out-of-memory, not a panic): modelled as "does not return" (assumption A-LEN, DESIGN.md)
+	t.safe(fr, "makeslice-len", fmt.Sprintf("(and (bvsle %s %s) (bvsle %s %s))", zero64, ln, ln, cp), x.Pos())
+	t.assume(fr.curReach, fmt.Sprintf("(bvslt %s LENMAX)", cp))
 	r := t.newObject(fr, fr.name(x)+"b")
 	fr.vals[x] = t.define("Slice", fr.name(x), fmt.Sprintf("(mk-slice %s %s %s %s)", r, zero64, ln, cp))
 	elem := x.Type().Underlying().(*types.Slice).Elem()
